@@ -88,14 +88,35 @@ fn inst_capture(
     pool: &Pool,
     path: String,
     texts: &mut Vec<(String, Result<(String, String), String>, Plan)>,
+    failed_attempts: u64,
 ) -> DispatcherBuilder<'static, 'static> {
     let mut b = DispatcherBuilder::new();
     #[cfg(feature = "parallel")]
     b.add_pool(pool.clone());
     let _ = pool;
-    for it in &plan.items {
+    for (idx, it) in plan.items.iter().enumerate() {
+        // now and then a registration attempt fails (unknown dependency / reused name), the caller
+        // catches the panic and carries on with the same builder: nothing was registered by it
+        if failed_attempts != 0 && mix(failed_attempts, idx as u64) % 5 == 0 {
+            let earlier: Vec<&str> = plan.items[..idx]
+                .iter()
+                .filter_map(|x| match x {
+                    Item::Sys(s) if !s.name.is_empty() => Some(s.name.as_str()),
+                    Item::Batch(bb) if !bb.name.is_empty() => Some(bb.name.as_str()),
+                    _ => None,
+                })
+                .collect();
+            let ghost = SysSpec { uid: 0, name: String::new(), deps: vec![], reads: vec![], writes: vec![], time: 3, kind: Kind::Dyn };
+            let r = if earlier.is_empty() || mix(failed_attempts, idx as u64 + 99) % 2 == 0 {
+                catch_unwind(AssertUnwindSafe(|| b.add(crate::sys::HSys::new(&ghost, ctx), "never registered", &["no such dependency"])))
+            } else {
+                let dup = earlier[(mix(failed_attempts, idx as u64 + 7) % earlier.len() as u64) as usize].to_string();
+                catch_unwind(AssertUnwindSafe(|| b.add(crate::sys::HSys::new(&ghost, ctx), &dup, &[])))
+            };
+            let _ = r;
+        }
         if let Item::Batch(bs) = it {
-            let inner = inst_capture(&bs.inner, ctx, pool, format!("{}/batch{}", path, bs.uid), texts);
+            let inner = inst_capture(&bs.inner, ctx, pool, format!("{}/batch{}", path, bs.uid), texts, failed_attempts);
             // re-use `register`'s logic for the controller by building the batch item by hand
             let deps: Vec<&str> = bs.deps.iter().map(|d| d.as_str()).collect();
             crate::sys::add_batch_item(&mut b, bs, inner, ctx, &deps);
@@ -183,7 +204,11 @@ fn case(rng: &mut Rng, pool: &Pool, rep: &mut Report, case_no: u64) {
     let (ev, _) = plan_runs(&plan);
     let ctx = Ctx::new(plan.n_uids().max(1), ev + 16);
     let mut texts = Vec::new();
-    let b = match catch_unwind(AssertUnwindSafe(|| inst_capture(&plan, &ctx, pool, "top".into(), &mut texts))) {
+    let failed_attempts = if rng.chance(1, 5) { rng.next() | 1 } else { 0 };
+    if failed_attempts != 0 {
+        rep.metric("builders_with_caught_failed_registrations", 1);
+    }
+    let b = match catch_unwind(AssertUnwindSafe(|| inst_capture(&plan, &ctx, pool, "top".into(), &mut texts, failed_attempts))) {
         Ok(b) => b,
         Err(p) => {
             rep.inconclusive += 1;
